@@ -291,3 +291,73 @@ Theorem C17_rows_agree_with_placeholder_in_every_environment :
   c = maxcol /\ r = rows_in env valid_size e upscale maxcol.
 Proof. exact rows_agree_placeholder_in. Qed.
 Print Assumptions C17_rows_agree_with_placeholder_in_every_environment.
+
+(** *** Round 6: the "original size fits" DECISION of a flow widget ([model/TrimFlow.v]).
+
+    [rows((maxcol,))] and the flow branch of [render((maxcol,))] each decide, for a widget that
+    does not upscale, between the image's ORIGINAL size and the size FITTED to [maxcol] columns;
+    the two sizes are [image._valid_size(maxcol)] and [image._valid_size(Size.ORIGINAL)], computed
+    ([model/Sizing.v]) from the style family, the image's pixel size, the cell size / cell ratio
+    and [maxcol].  [rows_by d] / [canvas_size_by d] are the two methods over ANY decision [d];
+    [fits_rows] / [fits_render] are the decisions the two methods of the code take.
+
+    Whatever the decisions: if they agree on (maxcol, fit, ori), the rows announced are the rows
+    of the canvas rendered, which is [maxcol] wide ... *)
+From TI Require Import lib.FArith lib.FPrim model.TrimFlow proofs.TrimFlowProofs.
+
+Theorem C17_rows_agree_from_equal_decisions :
+  forall (dr dd : decision) maxcol upscale fit ori,
+  dr maxcol fit ori = dd maxcol fit ori ->
+  rows_by dr maxcol upscale fit ori = snd (canvas_size_by dd maxcol upscale fit ori)
+  /\ fst (canvas_size_by dd maxcol upscale fit ori) = maxcol.
+Proof. exact rows_agree_by. Qed.
+Print Assumptions C17_rows_agree_from_equal_decisions.
+
+(** ... and if they do not, while the two sizes differ in height, a number of rows is announced
+    that is not rendered *)
+Theorem C17_rows_disagree_from_different_decisions :
+  forall (dr dd : decision) maxcol fit ori,
+  dr maxcol fit ori <> dd maxcol fit ori -> snd ori <> snd fit ->
+  rows_by dr maxcol false fit ori <> snd (canvas_size_by dd maxcol false fit ori).
+Proof. exact rows_disagree_by. Qed.
+Print Assumptions C17_rows_disagree_from_different_decisions.
+
+(** the code's two decisions are equal, and with them the methods are those of [model/Trim.v] *)
+Theorem C17_code_decisions_equal :
+  forall maxcol fit ori, fits_rows maxcol fit ori = fits_render maxcol fit ori.
+Proof. exact fits_rows_is_fits_render. Qed.
+Print Assumptions C17_code_decisions_equal.
+
+Theorem C17_decision_model_is_trim_model :
+  forall maxcol upscale fit ori,
+  rows_by fits_rows maxcol upscale fit ori = Trim.rows upscale fit ori
+  /\ image_size_by fits_render maxcol upscale fit ori = flow_image_size upscale fit ori
+  /\ canvas_size_by fits_render maxcol upscale fit ori = flow_canvas_size maxcol upscale fit ori.
+Proof. exact (fun m u f o => conj (rows_by_code m u f o) (canvas_size_by_code m u f o)). Qed.
+Print Assumptions C17_decision_model_is_trim_model.
+
+(** hence, for EVERY float arithmetic, style family, environment (cell size, cell ratio, terminal
+    size), image PIXEL size, flow width and upscale setting: the rows [rows((maxcol,))] announces
+    are the rows of the canvas [render((maxcol,))] builds *)
+Theorem C17_widget_rows_agree :
+  forall (FA : FloatArith) fam (e : Sizing.env FA) pw ph upscale maxcol,
+  announced_rows fits_rows fam e pw ph upscale maxcol
+  = snd (rendered_canvas fits_render fam e pw ph upscale maxcol)
+  /\ fst (rendered_canvas fits_render fam e pw ph upscale maxcol) = maxcol.
+Proof. exact widget_rows_agree. Qed.
+Print Assumptions C17_widget_rows_agree.
+
+(** EXCLUDED design: deciding in [render()] from the WIDTH alone ([ori_size[0] <= maxcol]).  A
+    graphics-based image of 19x100 pixels, 10x20-pixel cells, flow width 1 (= its original width
+    in columns; pixels -> cells floors): fitted size (1, 2), original size (1, 5); [rows((1,))]
+    announces 2, [render((1,))] builds 5 rows.  Stated over EXACT rational arithmetic [QFA] (the
+    disagreement comes from the floor, not from rounding); the same values on Coq's primitive
+    binary64 floats: [TrimFlowProofs.width_only_refuted], [width_only_refuted_405]. *)
+Theorem C17_width_only_decision_refuted :
+  (fit_of (FA := QFA) Sizing.Graphics (cell_env 10 20) 19 100 1 = (1, 2)
+   /\ ori_of (FA := QFA) Sizing.Graphics (cell_env 10 20) 19 100 = (1, 5))
+  /\ (fits_rows 1 (1, 2) (1, 5) = false /\ fits_width_only 1 (1, 2) (1, 5) = true)
+  /\ (announced_rows (FA := QFA) fits_rows Sizing.Graphics (cell_env 10 20) 19 100 false 1 = 2
+      /\ rendered_canvas (FA := QFA) fits_width_only Sizing.Graphics (cell_env 10 20) 19 100 false 1 = (1, 5)).
+Proof. exact (conj witness_sizes_exact (conj width_only_differs width_only_refuted_exact)). Qed.
+Print Assumptions C17_width_only_decision_refuted.
